@@ -431,15 +431,27 @@ func findCmps(fn *ssa.Function, wantEq bool, match func(x, y ssa.Value) bool) []
 // (positively used) conjuncts only — `m := a != nil && *a == X` — is false.
 func conjFalseEdges(fn *ssa.Function, conj []cmpForm) []cfgx.Edge {
 	var out []cfgx.Edge
-	var pos []ssa.Value
+	var pos, neg []ssa.Value
 	for _, c := range conj {
 		if c.Pos {
 			pos = append(pos, c.Bin)
+			// !bin, where the source wrote it
+			if c.Bin.Referrers() != nil {
+				for _, r := range *c.Bin.Referrers() {
+					if u, ok := r.(*ssa.UnOp); ok && u.Op == token.NOT {
+						neg = append(neg, u)
+					}
+				}
+			}
 		} else {
 			out = append(out, c.Fails...)
+			neg = append(neg, c.Bin)
 		}
 	}
-	return append(out, boolConjFalseEdges(fn, pos)...)
+	out = append(out, boolConjFalseEdges(fn, pos)...)
+	// De Morgan: the conjunction is false where a boolean or-combining the
+	// negated conjuncts (`free := ref == nil || pol == nil || *pol != Manual`) is true
+	return append(out, boolDisjTrueEdges(fn, neg)...)
 }
 
 // boolConjFalseEdges: edges on which one of the boolean values is known false,
